@@ -48,6 +48,12 @@ Plan gen_c28(sk::Rng& r, Tier) {
         else { op.k = "wait"; op.a = {r.pick<std::int64_t>({100, 1000, 5000, 29000, 31000})}; }
         p.ops.push_back(op);
     }
+    // a crowd: many other addresses, one accepted request each, in the middle of a flood (the limit is per address whatever
+    // the number of addresses the daemon has seen)
+    if (flood && r.chance(1, 4)) {
+        Op op; op.k = "crowd"; op.a = {r.pick<std::int64_t>({20, 130, 200, 300}), static_cast<std::int64_t>(r.below(2))};
+        p.ops.insert(p.ops.begin() + static_cast<std::ptrdiff_t>(r.range(static_cast<std::int64_t>(p.ops.size()) / 2, static_cast<std::int64_t>(p.ops.size()) - 1)), op);
+    }
     return p;
 }
 
@@ -142,6 +148,25 @@ void exec_c28(const Plan& p, Ctx& ctx) {
             } else {
                 ctx.violate("C28.no_reply", "STORE got no response");
             }
+        } else if (op.k == "crowd") {
+            const int count = static_cast<int>(op.at(0));
+            const bool fetch = op.at(1) != 0 && !manifest.empty();
+            int accepted = 0;
+            for (int i = 0; i < count && sk::alive(d.pid); ++i) {
+                const auto pl = make_payload(10 + static_cast<std::size_t>(i % 50), 30000 + uniq);
+                ++uniq;
+                std::vector<std::uint8_t> body(pl.begin(), pl.end());
+                std::vector<std::pair<std::string, std::string>> f;
+                if (fetch) f = {{"COMMAND", "FETCH"}, {"MANIFEST", manifest}, {"STREAM", "client"}};
+                else f = {{"COMMAND", "STORE"}, {"TTL", "60"}, {"STORE-POW", std::to_string(ref_solve_store_pow(body, "", 6, true))}, {"PAYLOAD-LENGTH", std::to_string(body.size())}};
+                CtlReply rep;
+                const int pid = sk::spawn("crowd-" + std::to_string(i), sk::ip(10, 0, static_cast<std::uint8_t>(20 + i / 250), static_cast<std::uint8_t>(1 + i % 250)),
+                                          [&] { rep = ctl_exchange(host, d.control_port, ctl_headers(f), fetch ? std::vector<std::uint8_t>{} : body, false, 15000, 1); return 0; }, 1u << 20);
+                sk::wait_exit(pid, 60 * kSec);
+                if (rep.ok) ++accepted;
+            }
+            if (accepted >= 128) ctx.boundary("crowd_of_128_or_more_addresses_in_one_window");
+            ctx.probe("crowd");
         } else if (op.k == "fetch") {
             if (manifest.empty()) continue;
             const int src = static_cast<int>(op.at(1));
